@@ -107,7 +107,7 @@ func (c *compiler) write(bb *strings.Builder, i interface{}) {
 	case uint, uint8, uint16, uint32, uint64, int, int8, int16, int32, int64, float32, float64:
 		bb.Write(unsafeGetBytes(fmt.Sprint(t)))
 	case fmt.Stringer:
-		bb.Write(unsafeGetBytes(t.String()))
+		bb.Write(unsafeGetBytes(template.HTMLEscaper(t.String())))
 	case []string:
 		for _, ii := range t {
 			c.write(bb, ii)
